@@ -33,3 +33,5 @@ func vxRaceOn(on bool)
 func vxSymbolic() bool
 func vxAll(c ...bool) bool
 func vxAny(c ...bool) bool
+func vxLock()
+func vxUnlock()
